@@ -17,6 +17,9 @@ def bar_family(min_size=1, max_size=8, count=1, dup_bias=False, **kw):
     return diagram_family(count=count, min_size=min_size, max_size=max_size, allow_diag=False, dup_bias=dup_bias, **kw)
 
 
+EXTREME = (30, 38, -30, 100, -100)     # "any scale": far from float64 overflow (1e308), beyond float32's range
+
+
 def has_repeated(bars):
     t = [tuple(b) for b in bars]
     return len(set(t)) < len(t)
